@@ -150,7 +150,7 @@ add("C13",
     "one-bracket automaton (strict_ok / strict_done, proved to accept every model trace: C13_traces_strictly_bracketed); a second process "
     "(commit, cp, reset, upgrade) run while the first is held (delay injection) at sampled system calls, at the removal of its lock file (entry "
     "and exit) and at any call after a release is refused exactly when the first has begun and is not finished, and the final tree equals the "
-    "serial reference; N-way races. Search: call pattern A M* R per command, snapshot equality, result in the set of serial results.",
+    "serial reference (also for a process held BEFORE its acquire: whatever it looked at before the lock must not decide its answer); N-way races. Search: call pattern A M* R per command, snapshot equality, result in the set of serial results.",
     "Atomicity of O_CREAT|O_EXCL and genuinely parallel interleavings are assumptions of the model (runtime facts); the correspondence exercises "
     "'B atomic inside A' schedules and whole-command races only. Lock key = sha256(id) assumed injective.",
     "machine-checked proof in Coq (invariants by induction over schedules, commutation => serializability) + strace trace correspondence")
@@ -322,8 +322,8 @@ add("C05",
     "declaration files; the three clauses are evaluated on the real trees, invalid states must be rejected by BOTH the independent "
     "validator and rocfl validate; outcome classes match the model at every aligned position.",
     "Process-kill model (calls already made are durable and ordered) is the property's stated model and is assumed. After every kill of the dedup scenarios the stale lock is removed and the commit retried: a "
-    "successful retry must give a valid object with every ingested content readable, a refused one must leave every ingested content in "
-    "staging or in the object (recovery clause).",
+    "successful retry must give the object of the uninterrupted commit (valid, every ingested content readable, no extra or missing "
+    "entry), a refused one must leave every ingested content in staging or in the object (recovery clause).",
     "machine-checked proof in Coq (all kill positions) + kill enumeration of the real commit under strace")
 
 
